@@ -284,7 +284,8 @@ def same_plain(got, want):
 # ---------------------------------------------------------------------------------------
 # pipelines: the same location rule through the pipeline translator (load_pipeline)
 
-PIPE_FAULTS = ("raise", "noattr", "nomod", "child-raise", "child-list-raise")
+PIPE_FAULTS = ("raise", "noattr", "nomod", "child-raise", "child-list-raise", "child-ok",
+               "child-list-ok")
 
 
 def pipeline_case(size, position, fault, forms):
@@ -298,6 +299,10 @@ def pipeline_case(size, position, fault, forms):
             if fault in ("raise", "noattr", "nomod"):
                 element["__type__"] = factory_name(fault, index)
                 expected = [("index", index)]
+            elif fault == "child-ok":
+                element["b"] = {"__type__": factory_name("fn", 7), "x": 1}
+            elif fault == "child-list-ok":
+                element["b"] = [1, {"c": {"__type__": factory_name("fn", 7), "x": 1}}]
             elif fault == "child-raise":
                 element["b"] = {"__type__": factory_name("raise", 7)}
                 expected = [("index", index), ("key", "b")]
@@ -315,6 +320,19 @@ def run_pipeline_case(case):
 
     content, expected = pipeline_case(*case)
     del factories.LOG[:]
+    if expected is None:
+        # a valid pipeline with a nested __type__ argument: it receives its own items only
+        try:
+            load_pipeline(clone(content))
+        except Exception as err:  # noqa: B902
+            return ("pipeline:valid-pipeline-rejected",
+                    "pipeline %r raised %s: %s" % (content, type(err).__name__, err))
+        nested = [entry for entry in factories.LOG if entry[:2] == ("fn", 7)]
+        if len(nested) != 1 or nested[0][2] != () or nested[0][3] != {"x": 1}:
+            return ("pipeline:nested-argument-call",
+                    "pipeline %r: the nested __type__ argument was constructed as %r, expected "
+                    "exactly once with kwargs {'x': 1}" % (content, nested))
+        return None
     try:
         load_pipeline(clone(content))
     except ConfigurationError as err:
